@@ -297,7 +297,7 @@ pub fn jobs(prop: &str, tier: &str) -> Vec<Job> {
             c.reserve_regions = true;
             // long default runs without deviations cross item-count thresholds (> 255, > 1024 items)
             let devs: &[(usize, usize, u8)] =
-                if thorough { &[(256, 1, 0), (48, 2, 0), (32, 2, 1), (1100, 0, 0), (4200, 0, 1)] } else { &[(48, 1, 0), (24, 2, 1), (300, 0, 0), (1100, 0, 1)] };
+                if thorough { &[(256, 1, 0), (48, 2, 0), (32, 2, 1), (1100, 0, 0), (4200, 0, 1)] } else { &[(48, 1, 0), (20, 2, 1), (300, 0, 0), (700, 0, 1)] };
             life(&mut out, c, if thorough { 6 } else { 4 }, devs, &|_| true, &|_, _| {});
             if thorough {
                 let mut c = LifeCfg::new("C02");
@@ -441,7 +441,7 @@ pub fn jobs(prop: &str, tier: &str) -> Vec<Job> {
             c.reserve_regions = true;
             c.n_forms = 2;
             c.n_values = 3;
-            let devs: &[(usize, usize, u8)] = if thorough { &[(48, 2, 0), (48, 2, 1)] } else { &[(24, 2, 1)] };
+            let devs: &[(usize, usize, u8)] = if thorough { &[(48, 2, 0), (48, 2, 1)] } else { &[(20, 2, 1)] };
             life(&mut out, c, if thorough { 6 } else { 5 }, devs, &|_| true, &|_, _| {});
             {
                 // a large history (70 000 items) before the clear
